@@ -16,6 +16,7 @@ Tied to /repo by harness/props/C12.py: the generated layouts (Generated/RegLayou
 import SpsdkVerif.Base.Py
 import SpsdkVerif.Model.Misc
 import SpsdkVerif.Model.BinImage
+import SpsdkVerif.Model.Registers
 
 namespace SpsdkVerif.CfgArea
 open SpsdkVerif SpsdkVerif.Misc SpsdkVerif.BinImg
@@ -265,6 +266,79 @@ def enumValue (enums : List (Nat × Nat)) (v : Nat) : CfgVal :=
 def decodeCfgVal (enums : List (Nat × Nat)) : CfgVal → Option Nat
   | .name n => enumConstant enums n
   | .num v => some v
+
+
+/-! ### the configuration level: a generated layout with its details as a C11 register file (`Model/Registers.lean`), and the
+    name layer on top of it (`find_reg` / `find_bitfield`)
+
+Registers are taken as plain, non-reversed registers holding their raw value (a non-reversed group reads and writes like one
+register of the total width); layouts with byte-reversed registers (ROTKH & co.) are outside this part of the model. -/
+
+def toField (f : BF) (fd : FieldD) : Regs.Field :=
+  { offset := f.off, width := f.width, shift := fd.shift, enums := fd.enums.map (·.1), reset := fd.reset }
+
+def toReg (r : RegL) (rd : RegD) (v : Nat) : Regs.Reg :=
+  { width := r.width, value := v, fields := List.zipWith toField r.fields rd.fields }
+
+def toRegMeta (rd : RegD) : Regs.RegMeta :=
+  { alts := [], fields := rd.fields.map (fun fd => { hidden := fd.hidden, names := fd.enums.map (·.2) }) }
+
+def toMeta (d : LayoutD) : Regs.Meta := d.regs.map toRegMeta
+
+def toFileFrom : List RegL → List RegD → Vals → Regs.RegFile
+  | r :: rs, rd :: rds, v :: vs => toReg r rd v :: toFileFrom rs rds vs
+  | _, _, _ => []
+
+def toFile (l : Layout) (d : LayoutD) (vals : Vals) : Regs.RegFile := toFileFrom l.regs d.regs vals
+
+def valuesOf (rf : Regs.RegFile) : Vals := rf.map (·.value)
+
+/-- the state of a freshly constructed object -/
+def LayoutD.initVals (d : LayoutD) : Vals := d.regs.map (·.init)
+
+def noReversedB (d : LayoutD) : Bool := d.regs.all (fun rd => !rd.reverse)
+
+/-- all-or-nothing map -/
+def optAll {α β : Type} (f : α → Option β) : List α → Option (List β)
+  | [] => some []
+  | a :: as => match f a, optAll f as with
+    | some b, some bs => some (b :: bs)
+    | _, _ => none
+
+/-- one register entry of the dictionary `get_config` returns: keyed by NAMES -/
+inductive NamedReg where
+  | value (v : Nat)
+  | fields (l : List (Nat × Regs.CfgVal))    -- (bit-field name, value)
+  deriving Repr, DecidableEq
+
+abbrev NamedCfg := List (Nat × NamedReg)       -- (register name, entry), in dictionary order
+
+/-- index-keyed configuration → name-keyed dictionary (what the code really hands out) -/
+def nameEntry (d : LayoutD) : Regs.RegRef × Regs.RegCfg → Option (Nat × NamedReg)
+  | (.top i, .value v) => (d.regs[i]?).map (fun rd => (rd.name, .value v))
+  | (.top i, .fields l) => match d.regs[i]? with
+    | some rd => (optAll (fun jc => (rd.fields[jc.1]?).map (fun fd => (fd.name, jc.2))) l).map (fun l' => (rd.name, .fields l'))
+    | none => none
+  | (.sub _ _, _) => none
+
+def nameCfg (d : LayoutD) (cfg : Regs.Cfg) : Option NamedCfg := optAll (nameEntry d) cfg
+
+/-- `find_reg(name, include_group_regs=True)` on the top-level registers: first register whose name or uid is the key -/
+def findReg (d : LayoutD) (key : Nat) : Option Nat := d.regs.findIdx? (fun rd => rd.name == key || rd.uid == key)
+
+/-- `find_bitfield(name)`: first bit-field with that name -/
+def findField (rd : RegD) (key : Nat) : Option Nat := rd.fields.findIdx? (fun fd => fd.name == key)
+
+/-- name-keyed dictionary → index-keyed configuration, as `_load_yml_config` resolves it -/
+def resolveEntry (d : LayoutD) : Nat × NamedReg → Option (Regs.RegRef × Regs.RegCfg)
+  | (n, .value v) => (findReg d n).map (fun i => (.top i, .value v))
+  | (n, .fields l) => match findReg d n with
+    | some i => match d.regs[i]? with
+      | some rd => (optAll (fun nc => (findField rd nc.1).map (fun j => (j, nc.2))) l).map (fun l' => (.top i, .fields l'))
+      | none => none
+    | none => none
+
+def resolveCfg (d : LayoutD) (n : NamedCfg) : Option Regs.Cfg := optAll (resolveEntry d) n
 
 /-! ### Boolean checkers over a layout together with its details (run by the kernel over the generated tables) -/
 
